@@ -121,3 +121,19 @@ Proof. exact T05_history_failed_calls_append_nothing_any_config. Qed.
 
 Print Assumptions C05_failed_call_appends_nothing_all_calls.
 Print Assumptions C05_history_failed_calls_append_nothing.
+
+(* ---------- how the drive is opened for writing (regenerated: Gen/Consts.v tape_writer_opens, from pkg/tape/write.go).
+   The model's tape is a list that calls extend; on the real drive "extend" is the operating system's append mode: every
+   file handed to the tar writer is opened with O_APPEND and never with O_TRUNC, so that each write lands behind whatever
+   the drive holds at that moment (also when something else appended in between), never on a position fixed at open time. *)
+From Coq Require Import String.
+From STFS Require Consts.
+Open Scope string_scope.
+Definition has_flag (f s : String.string) : bool := match String.index 0 f s with Some _ => true | None => false end.
+Theorem C05_writer_opens_in_append_mode :
+  forallb (fun p => negb (String.eqb (fst p) "returned") || (has_flag "os.O_APPEND" (snd p) && negb (has_flag "os.O_TRUNC" (snd p))))
+          Consts.tape_writer_opens = true
+  /\ (2 <= List.length (filter (fun p => String.eqb (fst p) "returned") Consts.tape_writer_opens))%nat
+  /\ forallb (fun p => negb (has_flag "os.O_TRUNC" (snd p))) Consts.tape_writer_opens = true.
+Proof. vm_compute. repeat split; try reflexivity; repeat constructor. Qed.
+Print Assumptions C05_writer_opens_in_append_mode.
